@@ -61,9 +61,16 @@ type conformResult struct {
 	Env      []string `json:"env"`
 	Bound    string   `json:"bound"`
 	What     string   `json:"what"`
-	Cases    int      `json:"cases"`
-	Failures int      `json:"failing_cases"`
-	Status   string   `json:"status"` // "pass" | "fail" | "not-run"
+	Cases int `json:"cases"`
+	// RawLines: failing lines the harness printed in this run (every context of every
+	// failing case, whatever property it belongs to); Failures: distinct failing cases
+	// that count for the property being checked; of these Known are listed in
+	// KNOWN_FINDINGS.jsonl and Violations are reported.
+	RawLines   int    `json:"failing_lines_printed"`
+	Failures   int    `json:"failing_cases_for_this_property"`
+	Known      int    `json:"known_findings"`
+	Violations int    `json:"violations"`
+	Status     string `json:"harness_status"` // "pass" | "fail" (the harness printed failing lines) | "not-run"
 	Secs     float64  `json:"seconds"`
 	Label    string   `json:"label"`
 	fails    []conformFailure // what counts for the property being checked
@@ -217,6 +224,8 @@ func runConform(prop string) []*conformResult {
 					}
 				}
 				r.fails = keep // (otherwise the run is only one side of a comparison)
+				r.RawLines = len(r.all)
+				r.Failures = len(r.fails)
 				if prop == "ALL" {
 					r.props = append(r.props, t.Props...)
 				}
